@@ -221,6 +221,68 @@ pub fn family(rng: &mut Rng, cfg: &GenCfg, which: usize) -> Option<Vec<Doc>> {
             let k = rng.range(8, 20);
             Some(gen_history(rng, &c, k).1)
         }
+        7 | 8 => {
+            // compensated absence: a parent with n children, all present once at first; in a later occurrence (same
+            // document, or a later one) some are missing and others are repeated just so often that the number of child
+            // tags is n again - totals, sums and lengths agree with "everything was seen once", the sets do not
+            let n = *rng.pick(&[2usize, 3, 4, 7, 8, 9, 12, 16, 17]);
+            let names: Vec<String> = (0..n).map(|i| if i < cfg.elem_names.len() && n <= 4 { cfg.elem_names[i].clone() } else { format!("k{i}") }).collect();
+            let root_name = "r";
+            let full = |selfclose: bool| {
+                let mut p = Elem::new("p");
+                for nm in &names {
+                    let mut c = Elem::new(nm);
+                    c.selfclose = selfclose;
+                    p.kids.push(Node::Elem(c));
+                }
+                p
+            };
+            let compensated = |rng: &mut Rng| {
+                let missing = rng.range(1, (n / 2).max(1));
+                let mut present: Vec<&String> = names.iter().collect();
+                rng.shuffle(&mut present);
+                let gone: Vec<&String> = present.drain(..missing).collect();
+                let _ = gone;
+                let mut p = Elem::new("p");
+                let keep_order: Vec<&String> = names.iter().filter(|x| present.contains(x)).collect();
+                let mut extra = missing;
+                for nm in keep_order {
+                    let reps = if extra > 0 && rng.pct(50) { let r = rng.range(1, extra); extra -= r; 1 + r } else { 1 };
+                    for _ in 0..reps {
+                        p.kids.push(Node::Elem(Elem::new(nm)));
+                    }
+                }
+                // whatever is left goes to the last kept child
+                if extra > 0 {
+                    if let Some(Node::Elem(last)) = p.kids.last().cloned() {
+                        for _ in 0..extra {
+                            p.kids.push(Node::Elem(last.clone()));
+                        }
+                    }
+                }
+                p
+            };
+            let mut docs = Vec::new();
+            let in_one = rng.pct(50);
+            let mut r = Elem::new(root_name);
+            r.kids.push(Node::Elem(full(rng.pct(50))));
+            if in_one {
+                if rng.pct(40) {
+                    r.kids.push(Node::Elem(full(false)));
+                }
+                r.kids.push(Node::Elem(compensated(rng)));
+            }
+            docs.push(Doc::plain(r));
+            if !in_one || rng.pct(40) {
+                let mut r2 = Elem::new(root_name);
+                r2.kids.push(Node::Elem(compensated(rng)));
+                docs.push(Doc::plain(r2));
+            }
+            if rng.pct(50) {
+                docs.reverse();
+            }
+            Some(docs)
+        }
         _ => None,
     }
 }
